@@ -134,13 +134,41 @@ def uses(iface, needle):
     return False
 
 
+def header_comment_lines(iface):
+    """the comment lines (text after `//`) of the interface-level headers directive; iface["hbreaks"] = indices of the
+    groups after which the directive continues on a new line"""
+    hs = iface.get("headers")
+    if not hs:
+        return []
+    breaks = set(iface.get("hbreaks") or [])
+    lines = []
+    cur = "shoot: headers="
+    for n, (k, v) in enumerate(hs):
+        cur += "{%s:%s}" % (k, v)
+        if n < len(hs) - 1:
+            cur += ","
+            if n in breaks:
+                lines.append(cur)
+                cur = "  "
+    lines.append(cur)
+    return lines
+
+
+def header_doc(iface):
+    """ast.CommentGroup.Text() of that comment"""
+    out = []
+    for ln in header_comment_lines(iface):
+        out.append((ln[1:] if ln.startswith(" ") else ln).rstrip())
+    return ("\n".join(out) + "\n") if out else ""
+
+
 def render_iface_decl(iface):
     lines = []
     for ln in iface.get("typedoc", []):
         lines.append("// " + ln)
     lines.append("type %s interface {" % iface["name"])
-    if iface.get("headers"):
-        lines.append("\t//shoot: headers=" + ",".join("{%s:%s}" % (k, v) for k, v in iface["headers"]))
+    for ln in header_comment_lines(iface):
+        lines.append("\t//" + ln)
     lines.append("\tshoot.RestClient[%s]" % iface["name"])
     for m in iface["methods"]:
         lines.append("")
@@ -240,9 +268,11 @@ def dummy_arg(p):
 # C10 oracle: the status matrix
 # ------------------------------------------------------------------------------------------------
 
-def c10_oracle(pkg, iface, statuses, bodies, faults):
+def c10_oracle(pkg, iface, statuses, bodies, faults, redirect=None, retry=None):
+    """redirect: None | (firsts, seconds, bodies);  retry: None | {n: [script specs]}"""
     n = iface["name"]
-    lines = ["package " + pkg, "", 'import (', '\t"context"', '\t"net/http"', "", '\t"github.com/lopolopen/shoot"', '\t"verifcases/vrest"', ")", "",
+    lines = ["package " + pkg, "", 'import (', '\t"context"', '\t"net/http"', "", '\t"github.com/lopolopen/shoot"', '\t"github.com/lopolopen/shoot/middleware"', '\t"verifcases/vrest"', ")", "",
+             "var _ = middleware.RetryMiddleware", "",
              "func verifMethods(c %s) []vrest.Method {" % n,
              "\treturn []vrest.Method{"]
     for m in iface["methods"]:
@@ -265,6 +295,17 @@ def c10_oracle(pkg, iface, statuses, bodies, faults):
               '\tc := shoot.NewRest[%s](shoot.BaseURL("http://verif.invalid/api")).ConfigHTTPClient(func(h *http.Client) { h.Transport = sc; hc = h })' % n,
               '\tvrest.StatusMatrix(emit, sc, hc, verifMethods(c), vrest.Statuses("%s"), []string{%s}, []string{%s})' % (
                   statuses, ", ".join('"%s"' % b for b in bodies), ", ".join('"%s"' % f for f in faults if not f.endswith("-real")))]
+    if redirect:
+        firsts, seconds, rbodies = redirect
+        lines.append('\tvrest.RedirectLegs(emit, sc, hc, verifMethods(c), []int{%s}, []int{%s}, []string{%s})' % (
+            ", ".join(str(x) for x in firsts), ", ".join(str(x) for x in seconds), ", ".join('"%s"' % b for b in rbodies)))
+    for rn, scripts in sorted((retry or {}).items()):
+        # a client whose chain is logging -> RetryMiddleware(n, 0) -> scripted base (BuildMiddleware wraps http.DefaultTransport)
+        lines += ["\t{", "\t\told := http.DefaultTransport", "\t\tsc2 := &vrest.Script{}", "\t\thttp.DefaultTransport = sc2",
+                  '\t\tc2 := shoot.NewRest[%s](shoot.BaseURL("http://verif.invalid/api"), shoot.Use(middleware.RetryMiddleware(%d, 0)), shoot.EnableLogging(true))' % (n, rn),
+                  "\t\thttp.DefaultTransport = old",
+                  "\t\tvrest.RetryMatrix(emit, sc2, verifMethods(c2), %d, []string{%s})" % (rn, ", ".join('"%s"' % x for x in scripts)),
+                  "\t}"]
     if "refused-real" in faults:
         # the client exactly as NewRest built it (transport = conf.BuildMiddleware() = http.DefaultTransport) against a closed local port
         lines += ['\tif addr := vrest.ClosedPort(); addr != "" {',
@@ -341,7 +382,7 @@ Q_NAMES = ["q", "page", "size", "flag", "key", "sort", "limit", "verbose", "sinc
 WIRE_NAMES = ["page_size", "page_idx", "user-id", "k", "sz", "Q", "id2", "sort_by", "x|y"]
 FIELD_NAMES = ["Name", "PageSize", "PageIdx", "ID", "UserID", "URL", "X", "IsOK", "HTTPCode", "name2", "pageNo", "kind", "user_name", "n"]
 BASES = ["http://h.invalid", "http://h.invalid/api", "http://h.invalid/api/", "https://h.invalid:8443/v1/x"]
-HEADER_SETS = [None, None, [("Authorization", "Bearer abc")], [("X-Env", "test"), ("Accept", "text/plain")],
+HEADER_SETS = [None, None, [("accept", "text/plain")], [("x-env", "1"), ("X-Env", "2"), ("content-type", "a/b")], [("Authorization", "Bearer abc")], [("X-Env", "test"), ("Accept", "text/plain")],
                [("X-Trace-Id", "t-1"), ("Content-Type", "application/xml"), ("X-B", "a b c")], [("Accept", "application/vnd.x+json")]]
 SAFE_STRINGS = ["abc", "u1", "A_b-9", "42"]
 UNSAFE_STRINGS = ["a b", "a/b", "x?y=z&w", "été", "50%25", "a+b", "#frag", "", "..", "a%2Fb", "k=v", "a&b", "sp ace/sl", "per%cent", "semi;colon", "q\"uote", "back\\slash", "~t:1,2"]
@@ -391,9 +432,11 @@ class C06Gen:
         names = rng.sample(FIELD_NAMES, rng.randint(1, 4))
         if where == "sub":
             names = [n for n in names if n[:1].isupper()] or ["Name"]
+        if where == "other":
+            names = names[:3]
         fields = []
         for n in names:
-            f = {"name": n, "type": rng.choice(SC_TYPES), "ptr": rng.random() < 0.3, "alias": None, "json": None}
+            f = {"name": n, "type": rng.choice(SC_TYPES), "ptr": rng.random() < 0.3 and where != "other", "alias": None, "json": None}
             r = rng.random()
             if r < 0.35:
                 f["alias"] = rng.choice(["size", "page_idx", "nm", "k2", "ID", "q"])
@@ -495,7 +538,9 @@ class C06Gen:
         names = rng.sample(METHOD_NAMES, n)
         ms = [self.method(mn, ctx, **force) for mn in names]
         structs = [s for m in ms for s in m.pop("structs")]
-        return {"name": name, "headers": rng.choice(HEADER_SETS), "structs": structs, "methods": ms, "base": rng.choice(BASES)}
+        hs = rng.choice(HEADER_SETS)
+        hb = [n for n in range(len(hs) - 1) if rng.random() < 0.4] if hs else []
+        return {"name": name, "headers": hs, "hbreaks": hb, "structs": structs, "methods": ms, "base": rng.choice(BASES)}
 
     # ---- argument vectors -----------------------------------------------------------------------
     def args_for(self, m, k, nil_struct=0.0, brace=0.0, unsafe=0.5):
@@ -522,9 +567,10 @@ class C06Gen:
                 sx.append([Q(p["name"]), ["s", Q(txt)]])
             elif kind == "struct":
                 s = p["struct"]
+                other = s.get("where") == "other"
                 if p.get("ptr") and rng.random() < nil_struct:
                     go_args.append("nil")
-                    sx.append([Q(p["name"]), "stnil"])
+                    sx.append([Q(p["name"]), "stvnil" if other else "stnil"])
                     if m["verb"] in BODY_VERBS:
                         jsonexpr = "(*%s)(nil)" % p["type"]
                     continue
@@ -538,7 +584,12 @@ class C06Gen:
                     fs.append([Q(f["name"]), ["s", Q(txt)]])
                 lit = "%s{%s}" % (p["type"], ", ".join(inits))
                 go_args.append(("&" if p.get("ptr") else "") + lit)
-                sx.append([Q(p["name"]), ["st"] + fs])
+                if other:
+                    # what fmt prints for the value with %v: {f1 f2 …} (no pointer fields in these structs)
+                    txts = [str(x[1][1]) for x in fs]
+                    sx.append([Q(p["name"]), ["stv", Q("{" + " ".join(txts) + "}")] + fs])
+                else:
+                    sx.append([Q(p["name"]), ["st"] + fs])
                 if m["verb"] in BODY_VERBS:
                     jsonexpr = ("&" if p.get("ptr") else "") + lit
             elif kind == "dict":
@@ -595,15 +646,13 @@ def kind_sexp(p):
         for f in p["struct"]["fields"]:
             tag = ("alias=%s" % f["alias"]) if f.get("alias") else ""
             fs.append(["f", Q(f["name"]), "ptr" if f.get("ptr") else "val", Q(tag)])
-        return ["struct"] + fs
+        return ["structx" if p["struct"].get("where") == "other" else "struct"] + fs
     return {"scalar": "scalar", "dict": "dict", "qual": "qual", "unsupported": "unsupported"}[k]
 
 
 def iface_forms(iface):
     """the (hdoc …) (headers …) (methods …) forms of one interface"""
-    hdoc = ""
-    if iface.get("headers"):
-        hdoc = "shoot: headers=" + ",".join("{%s:%s}" % (k, v) for k, v in iface["headers"]) + "\n"
+    hdoc = header_doc(iface)
     ms = []
     for m in iface["methods"]:
         ps = [["p", Q(p["name"]), kind_sexp(p), "ptr" if p.get("ptr") else "val"] for p in m["params"]]
